@@ -18,7 +18,7 @@ Lemma quote_nil safe : quote safe [] = [].
 Proof. reflexivity. Qed.
 
 Ltac fin :=
-  cbn -[valid_text quote dec_of_Z app N.eqb str_eqb]; rewrite ?quote_nil; repeat rewrite app_nil_r;
+  cbn -[valid_text quote dec_of_Z app N.eqb str_eqb chr_in]; rewrite ?quote_nil; repeat rewrite app_nil_r;
   repeat (progress (rewrite <- ?app_assoc; cbn [app]));
   try reflexivity; try congruence.
 
@@ -26,12 +26,14 @@ Ltac fin :=
 Lemma gen_uri_char name user pw host port db :
   build_uri name user pw host port db = clean_uri name user pw host port db.
 Proof.
-  unfold build_uri, clean_uri, clean_auth, clean_hostport, gen_uri, oport, strip1.
+  unfold build_uri, clean_uri, clean_auth, clean_hostport, port_part, host_text, gen_uri, oport, strip1.
   destruct user as [|cu user]; destruct pw as [|cp pw]; destruct host as [|ch host];
-    destruct port as [[|z|z]|]; destruct db as [|d db].
-  all: cbn -[valid_text quote dec_of_Z app N.eqb].
+    destruct port as [z|]; destruct db as [|d db].
+  all: cbn -[valid_text quote dec_of_Z app N.eqb chr_in].
+  all: try (destruct (chr_in 58 (ch :: host)) eqn:Ec; cbn -[valid_text quote dec_of_Z app N.eqb chr_in]).
+  all: try (destruct (ch =? 91) eqn:Eb; cbn -[valid_text quote dec_of_Z app N.eqb chr_in]).
   all: try (destruct (d =? 47) eqn:Ed).
-  all: cbn -[valid_text quote dec_of_Z app N.eqb].
+  all: cbn -[valid_text quote dec_of_Z app N.eqb chr_in].
   all: split_valid; fin.
 Qed.
 
